@@ -1,9 +1,11 @@
 import CijModel.Wire
 import CijModel.VRH
+import CijModel.CalcGlue
+import Generated.CalcGlueSpec
 open Lean Cij Cij.Wire
 
 namespace Cij.Ops.C07
-open Cij.VRH
+open Cij.VRH Cij.CalcGlue
 
 def jOptField : Option (Field Float) → Json
   | some f => jFloats2 f
@@ -48,11 +50,22 @@ def reportJson (inp : Inputs Float) (S : Nat → Nat → Int → Int → Float) 
     ("gV", jOptField r.gV), ("gR", jOptField r.gR), ("gH", jOptField r.gH),
     ("mass", floatToJson r.mass), ("vp", jOptField r.vp), ("vs", jOptField r.vs),
     ("C", jFloats4 ((List.range inp.nt).map fun t => (List.range inp.nv).map fun v => assemble6 (kvAt inp.modAd t v))),
+    -- the same two loops evaluated from the index data extracted from `_calculate_compliances` on this run
+    ("C_spec", jFloats4 ((List.range inp.nt).map fun t => (List.range inp.nv).map fun v =>
+        assemble6Spec Generated.CalcGlue.complSpec (kvAt inp.modAd t v))),
+    ("compl_spec_keys", Json.arr ((complDictSpec Generated.CalcGlue.complSpec S inp.nt inp.nv).map (keyJson ·.1)).toArray),
+    ("compl_spec", jFloats3 ((complDictSpec Generated.CalcGlue.complSpec S inp.nt inp.nv).map (·.2))),
     ("S", jFloats4 ((List.range inp.nt).map fun t => (List.range inp.nv).map fun v =>
         idx6.map fun i => idx6.map fun j => S t v i j)),
     -- the specification side of the theorems, evaluated on the same data
     ("C_iijj", tgrid fun t v => contractIIJJ (cT t v)), ("C_ijij", tgrid fun t v => contractIJIJ (cT t v)),
     ("S_iijj", tgrid fun t v => contractIIJJ (sT t v)), ("S_ijij", tgrid fun t v => contractIJIJ (sT t v))]
+
+/-- outcome of `getattr(volume_base, name)` through the extracted pattern / dispatch -/
+def outcomeJson : Outcome → Json
+  | .served st key => Json.arr #[Json.str st, keyJson key]
+  | .attributeError => Json.str "AttributeError"
+  | .otherError => Json.str "error"
 
 def handle : Handler := fun op j =>
   match op with
@@ -64,6 +77,16 @@ def handle : Handler := fun op j =>
       let inp ← inputsOfJson j
       let s ← floats4 (← field j "S")
       pure (reportJson inp (sOfGrid s))
+  | "c07.lookup" => some do       -- names through REGEX_CIJ / __getattr__ as extracted on this run
+      let keys ← listOf keyOfJson (← field j "keys")
+      let dictKeys ← listOf keyOfJson (← field j "dict_keys")
+      let complKeys ← listOf keyOfJson (← field j "compl_keys")
+      let names ← listOf strOfJson (← field j "names")
+      let st : Stores Unit := { keys := keys, adiabatic := dictKeys.map (·, ()), isothermal := dictKeys.map (·, ()),
+                                compliances := complKeys.map (·, ()) }
+      pure (Json.arr (names.map fun n =>
+        outcomeJson (resolve Generated.CalcGlue.regexParts Generated.CalcGlue.getattrMatchFn
+          Generated.CalcGlue.getattrBranches st.hasKey n)).toArray)
   | _ => none
 
 end Cij.Ops.C07
